@@ -273,6 +273,65 @@ def _drain(gen_, limit=None):
     return acc
 
 
+def rdflib_parser_interleavings(ctx):
+    """Two or three rdflib parsers over different valid streams (typed literals in non-canonical lexical
+    forms included), advanced item by item in random orders -- overlapping lifetimes that are NOT nested:
+    one starts, another starts, the first ends while the other is still half-way.  Every parser must yield
+    what it yields alone.  Afterwards a fresh parse of the first stream must still give the same."""
+    from pyjelly.integrations.rdflib import parse as rparse
+
+    out = []
+    r = ctx.rng
+    for it in range(ctx.n(30, 400)):
+        streams = []
+        while len(streams) < r.choice([2, 2, 3]):
+            st = fam_parse.ref_stream(ctx, rdf11=True, noncanon_p=0.7)
+            if st is None or len(st["events"]) < 4:
+                continue
+            streams.append(refenc.frames_bytes(st["frames"], True))
+        alone = [fam_parse.impl_flat("r", b) for b in streams]
+        gens = [rparse.parse_jelly_flat(io.BytesIO(b)) for b in streams]
+        accs = [[] for _ in streams]
+        ends = ["E"] * len(streams)
+        live = list(range(len(streams)))
+        started = []
+        order = []
+        while live:
+            # start them one after another, then let the one started FIRST finish first
+            if len(started) < len(streams) and r.random() < 0.7:
+                i = len(started)
+                started.append(i)
+            else:
+                i = r.choice(live) if r.random() < 0.5 else live[0]
+            if i not in live:
+                continue
+            order.append(i)
+            try:
+                accs[i].append(fam_parse.rdflib_event_tok(next(gens[i])))
+            except StopIteration:
+                live.remove(i)
+            except Exception:  # noqa: BLE001
+                ends[i] = "R"
+                live.remove(i)
+        ctx.report.evaluations += 1
+        ctx.report.count("C12/rdflib-parsers-interleaved")
+        if len(set(order[:8])) > 1:
+            ctx.report.nontrivial.add(("rdflib-interleaved", it, tuple(order[:30])))
+        again = fam_parse.impl_flat("r", streams[0])
+        for i, a in enumerate(alone):
+            if (ends[i], accs[i]) != (a[0], a[1]):
+                k = next((j for j, (x, y) in enumerate(zip(accs[i], a[1])) if x != y), min(len(accs[i]), len(a[1])))
+                out.append({"family": "WL", "mode": "rdflib-parsers-interleaved", "workload": i, "corresponds": True, "impl": accs[i][k:k + 2], "model": a[1][k:k + 2],
+                            "streams": [hx(b) for b in streams], "order": order[:300],
+                            "property_violation": {"what": f"rdflib parser {i} yields another item {k} when interleaved with {len(streams) - 1} other parser(s) than alone"}, "signature": {}})
+                break
+        else:
+            if (again[0], again[1]) != (alone[0][0], alone[0][1]):
+                out.append({"family": "WL", "mode": "rdflib-parse-after-interleaving", "corresponds": True, "impl": "", "model": "", "streams": [hx(b) for b in streams],
+                            "order": order[:300], "property_violation": {"what": "the same stream parses differently after other parsers overlapped in the process"}, "signature": {}})
+    return out
+
+
 def shared_options_cases(ctx, only=None, label="C12"):
     out = []
     r = ctx.rng
@@ -553,6 +612,7 @@ def c12(ctx):
     # default options: streams created earlier (finished, abandoned half-way or failed), interleaved
     # or concurrent must not show in a stream's bytes
     out.extend(shared_options_cases(ctx))
+    out.extend(rdflib_parser_interleavings(ctx))
     # exhaustive interleavings of two short workloads
     r2 = ctx.rng
     w0, w1 = workload(r2, 0), workload(r2, 1)
